@@ -1346,7 +1346,7 @@ func VH_C12_close_while_datagram_in_hand() {
 					got++
 				}
 			}
-			verifAssert("C12.in-hand.never-lost", got == 1)
+			verifAssert("C12.in-hand.never-lost|C18.in-hand.the-other-handle-is-still-served", got == 1)
 			h2.Close()
 			if got != 1 {
 				return // shown once is enough
@@ -1371,4 +1371,47 @@ func verifPause() {
 		return
 	}
 	time.Sleep(200 * time.Microsecond)
+}
+
+// C13: addresses as an operator may spell them (IPv6 written out, upper-case hex, an IPv4-mapped
+// form, a host name, no host at all): every listen and close call returns, a second listen on the
+// same spelling shares the first one's listener, and the manager is usable afterwards
+func VH_C13_address_spellings() {
+	spellings := []string{"127.0.0.1:9500", "[::1]:9501", "[0:0:0:0:0:0:0:1]:9502", "[::FFFF:7F00:1]:9503",
+		"[::ffff:127.0.0.1]:9504", ":9506", "[0000:0000:0000:0000:0000:0000:0000:0001]:9507", "[::FFFF:127.0.0.1]:9508"}
+	addr := spellings[verifChoice("spelling", len(spellings))]
+	packet := verifFlag("packet")
+	lm := NewListenerManager()
+	done := make(chan int, 8)
+	go func() {
+		var hs []interface{ Close() error }
+		for i := 0; i < 2; i++ {
+			if packet {
+				delete(verifBoundPC, addr)
+				if h, err := lm.ListenPacket(addr); err == nil {
+					hs = append(hs, h)
+				}
+			} else {
+				if h, err := lm.ListenStream(addr); err == nil {
+					hs = append(hs, h)
+				}
+			}
+			done <- 1
+		}
+		verifAssert("C13.spellings.both-listens-succeed", len(hs) == 2)
+		for _, h := range hs {
+			h.Close()
+			done <- 2
+		}
+		// the manager still serves other addresses
+		h, err := lm.ListenStream("127.0.0.1:9599")
+		verifAssert("C13.spellings.manager-usable-afterwards", err == nil)
+		if err == nil {
+			h.Close()
+		}
+		done <- 3
+	}()
+	verifSettle(func() bool { return len(done) == 5 })
+	verifAssert("C13.spellings.all-calls-return", len(done) == 5)
+	verifReach("C13.spellings.done", true)
 }
